@@ -159,7 +159,15 @@ class BNCase:
                 mom = sp["momentum"]          # None (cumulative average) or an exact end point: 0.0 freezes, 1.0 replaces
             else:
                 mom = env.scalar("mom", lo=0, hi=1, lo_strict=True, hi_strict=True, kind="data")
-            m = cls(C, eps=eps, momentum=mom, affine=sp["affine"], track_running_stats=sp["track"])
+            if sp.get("dtype"):
+                # the constructor's dtype option: parameters and running statistics are created in that type
+                m = cls(C, eps=eps, momentum=mom, affine=sp["affine"], track_running_stats=sp["track"], dtype=np.dtype(sp["dtype"]).type)
+                made = [("running_mean", m.running_mean), ("running_var", m.running_var)] if sp["track"] else []
+                made += [("weight", m.weight), ("bias", m.bias)] if sp["affine"] else []
+                for nm_, t_ in made:
+                    out.fact("BatchNorm(dtype=%s) creates %s in that dtype" % (sp["dtype"], nm_), str(t_.dtype) == sp["dtype"], "dtype %s" % t_.dtype)
+            else:
+                m = cls(C, eps=eps, momentum=mom, affine=sp["affine"], track_running_stats=sp["track"])
             gam = bet = None
             if sp["affine"]:
                 gam = env.arr("gamma", (C,))
@@ -305,6 +313,10 @@ def enumerate_specs(tier):
                         specs.append({"kind": "bn", "shape": list(shape), "affine": affine, "track": track,
                                       "momentum": momentum, "history": h})
     specs.append({"kind": "bn", "shape": [2, 1, 1, 2], "affine": True, "track": True, "momentum": "s", "history": "fef"})
+    specs.append({"kind": "bn", "shape": [2, 1, 1, 2], "affine": True, "track": False, "momentum": "s", "history": "fef"})    # BatchNorm2d without statistics
+    specs.append({"kind": "bn", "shape": [2, 1, 2, 1], "affine": False, "track": True, "momentum": None, "history": "ff"})
+    for shape in ([2, 1], [2, 1, 1, 2]):
+        specs.append({"kind": "bn", "shape": shape, "affine": True, "track": True, "momentum": "s", "history": "f", "dtype": "float64"})
     # every application of the one layer is differentiated, right away or only after the last forward
     # (histories in which no eval forward follows a training forward: the running statistics an eval forward reads are then
     # inputs of the scenario, not functions of an earlier batch - autograd rightly treats them as constants, a value-level
